@@ -56,14 +56,14 @@ Proof.
   - cbn [forallb]. rewrite forallb_id_rev, forallb_id_map. apply andb_comm.
 Qed.
 
-Lemma rep_sem n0 toks b a : rep n0 toks b -> forall fuel i bv,
+Lemma rep_sem P st n0 toks b a : rep P st n0 toks b -> forall fuel i bv,
   eval_d4_opt fuel toks a i = Some bv ->
   exists x, 1 <= i /\ nth_error (bs_idx b) (i - 1) = Some x /\ GV (ls_g (bs_ls b)) a x bv.
 Proof.
   intros HR. induction fuel as [|f IH]; intros i bv H; [discriminate|].
   cbn [eval_d4_opt] in H. destruct i as [|i']; [discriminate|].
   destruct (nth_error (d4_decls toks) i') as [k|] eqn:Ek; [|discriminate].
-  destruct (Forall2_nth_error_l _ _ _ _ _ (rp_decl _ _ _ HR) Ek) as [x [Hx Hlx]].
+  destruct (Forall2_nth_error_l _ _ _ _ _ (rp_decl _ _ _ _ _ HR) Ek) as [x [Hx Hlx]].
   exists x. split; [lia|]. replace (S i' - 1) with i' by lia. split; [exact Hx|].
   set (g := ls_g (bs_ls b)) in *.
   set (edge := fun e : list Z * nat =>
@@ -71,7 +71,7 @@ Proof.
   assert (Hkids : forall vs, opt_all edge (d4_edges_from toks (S i')) = Some vs ->
             Forall2 (GV g a) (sg_out g x) (rev vs)).
   { intros vs Hvs. apply opt_all_Forall2, Forall2_rev in Hvs.
-    refine (Forall2_join _ _ (fun y v => GV g a y v) _ _ _ _ Hvs (rp_edges _ _ _ HR i' x Hx)).
+    refine (Forall2_join _ _ (fun y v => GV g a y v) _ _ _ _ Hvs (rp_edges _ _ _ _ _ HR i' x Hx)).
     intros e v y _ He Hy. cbv beta in He. unfold edge in He.
     destruct (eval_d4_opt f toks a (snd e)) as [bt|] eqn:Et; [|discriminate]. cbn [option_map] in He.
     injection He as <-.
@@ -108,14 +108,18 @@ Proof.
 Qed.
 
 (* ---------- between the passes ---------- *)
-Lemma tables_ok_shrink s g2 : tables_ok s -> Inv g2 -> shrink (ls_g s) g2 -> tables_ok (with_g s g2).
+Lemma tables_ok_shrink P st s g2 : tables_ok P st s -> Inv g2 -> (st = true -> srcs_ok g2) ->
+  shrink (ls_g s) g2 -> tables_ok P st (with_g s g2).
 Proof.
-  intros [[HI Hl Hp] Ht] HI2 Hs. split.
+  intros [[HI Hl Hp Hj Hsr] Ht] HI2 Hsr2 Hs. split.
   - constructor; cbn [with_g ls_g ls_lits].
     + exact HI2.
     + intros l z Hz. apply (sh_keep _ _ Hs z _ (Hl l z Hz)); discriminate.
     + intros z l Hz. apply (Hp z l).
       destruct (sh_label _ _ Hs z) as [E|[_ E]]; [unfold sg_alive; now rewrite Hz|congruence|congruence].
+    + intros z l Hz. apply (Hj z l).
+      destruct (sh_label _ _ Hs z) as [E|[_ E]]; [unfold sg_alive; now rewrite Hz|congruence|congruence].
+    + exact Hsr2.
   - intros f o Hfo. cbn [with_g ls_g ls_tri] in *. destruct (Ht f o Hfo) as [Hf [Hlo [n [p [Ho [Hn Hp']]]]]].
     assert (Hao : sg_alive g2 o = true).
     { unfold sg_alive. destruct (sh_or _ _ Hs o Hlo) as [E|E]; now rewrite E. }
@@ -137,19 +141,27 @@ Proof.
   unfold lit_diffs_body in H. rewrite Hl in H. discriminate.
 Qed.
 
-Lemma seq_ge1 n : Forall (fun f => 1 <= f) (seq 1 n).
-Proof. apply Forall_forall. intros f Hf. apply in_seq in Hf. lia. Qed.
+Definition nonzero (l : Z) : Prop := l <> 0%Z.
 
-(* ---------- the theorem ---------- *)
-Section Main.
-Variables (rc : bool) (ord : list nat -> list nat).
-Hypothesis Hord : forall l f, In f (ord l) -> In f l.
+Lemma seq_ge1 n : Forall (fun f => 1 <= f /\ @PF nonzero f) (seq 1 n).
+Proof. apply Forall_forall. intros f Hf. apply in_seq in Hf. unfold PF, nonzero. lia. Qed.
 
-Theorem load_d4_gen_sem toks n0 C n' : d4_ok toks ->
-  load_d4_gen rc ord toks n0 = Some (C, n') ->
-  n' = Nat.max n0 (d4_maxvar toks) /\ forall a, eval_root a C = eval_d4 toks a.
+Lemma nonzero_opp l : nonzero l -> nonzero (- l)%Z.
+Proof. unfold nonzero. lia. Qed.
+
+(* the stages of load_d4_gen *)
+Lemma load_stages rc ord toks n0 C n' : load_d4_gen rc ord toks n0 = Some (C, n') ->
+  exists b root1 s1 g2 s3 order,
+    d4_lines rc (mkBS (mkLS sg_empty [] []) [] [] n0) toks = Some b /\
+    sg_alive (ls_g (bs_ls b)) 0 = true /\
+    add_free rc (bs_occ b) (seq 1 (bs_total b)) 0 (bs_ls b) = Some (root1, s1) /\
+    pass2 (ls_g s1) root1 = Some g2 /\
+    pass3 rc ord (with_g s1 g2) root1 = Some s3 /\
+    sg_alive (ls_g s3) root1 = true /\
+    dfs_post_order (to_graph (ls_g s3)) root1 = Some order /\
+    flatten (to_graph (ls_g s3)) order [] [] = Some C /\ n' = bs_total b.
 Proof.
-  intros [Hnz [b0 Hterm]] H. unfold load_d4_gen, load_d4_gen_with in H. fold (build_d4_graph rc ord) in H.
+  intros H. unfold load_d4_gen, load_d4_gen_with in H. fold (build_d4_graph rc ord) in H.
   destruct (build_d4_graph rc ord toks n0) as [[[g root] total]|] eqn:Eb; [|discriminate].
   destruct (negb (sg_alive g root)) eqn:Hroot; [discriminate|]. apply negb_false_iff in Hroot.
   destruct (dfs_post_order (to_graph g) root) as [order|] eqn:Ed; [|discriminate].
@@ -162,31 +174,47 @@ Proof.
   destruct (pass2 (ls_g s1) root1) as [g2|] eqn:E2; [|discriminate].
   destruct (pass3 rc ord (with_g s1 g2) root1) as [s3|] eqn:E3; [|discriminate].
   injection Eb as <- <- <-.
+  exists b, root1, s1, g2, s3, order. repeat split; assumption.
+Qed.
+
+(* ---------- the theorem ---------- *)
+Section Main.
+Variables (rc : bool) (ord : list nat -> list nat).
+Hypothesis Hord : forall l f, In f (ord l) -> In f l.
+
+Theorem load_d4_gen_sem toks n0 C n' : d4_ok toks ->
+  load_d4_gen rc ord toks n0 = Some (C, n') ->
+  n' = Nat.max n0 (d4_maxvar toks) /\ forall a, eval_root a C = eval_d4 toks a.
+Proof.
+  intros [Hnz [b0 Hterm]] H.
+  destruct (load_stages rc ord toks n0 C n' H) as [b [root1 [s1 [g2 [s3 [order [El [H0 [Efree [E2 [E3 [Hroot [Ed [Ef ->]]]]]]]]]]]]]].
   (* the line loop *)
-  pose proof (rep_lines rc n0 toks [] _ b (rep_init n0) Hnz El) as HR. cbn [app] in HR.
-  split; [exact (rp_total _ _ _ HR)|]. intros a.
+  assert (HR : rep nonzero false n0 toks b).
+  { apply (rep_lines (P := nonzero) (st := false) rc toks n0 toks [] _ b (rep_init n0) eq_refl); [|exact El].
+    intros from to fs Hin. split; [exact (Hnz from to fs Hin)|discriminate]. }
+  split; [exact (rp_total _ _ _ _ _ HR)|]. intros a.
   destruct (eval_d4_opt_indep toks _ a _ _ _ Hterm) as [bv Hbv].
   unfold eval_d4. rewrite Hbv.
-  destruct (rep_sem n0 toks b a HR _ _ _ Hbv) as [x [_ [Hx Hv0]]]. cbn [Nat.sub] in Hx.
-  rewrite (rp_first _ _ _ HR x Hx) in Hv0.
+  destruct (rep_sem _ _ n0 toks b a HR _ _ _ Hbv) as [x [_ [Hx Hv0]]]. cbn [Nat.sub] in Hx.
+  rewrite (rp_first _ _ _ _ _ HR x Hx) in Hv0.
   (* free features *)
-  assert (Hok0 : tables_ok (bs_ls b)).
-  { split; [exact (rp_core _ _ _ HR)|]. intros f o Hfo. rewrite (rp_tri _ _ _ HR) in Hfo. discriminate. }
-  destruct (add_free_spec rc _ _ _ _ _ Hok0 H0 (seq_ge1 _) Efree) as [Hok1 Hfree].
+  assert (Hok0 : tables_ok nonzero false (bs_ls b)).
+  { split; [exact (rp_core _ _ _ _ _ HR)|]. intros f o Hfo. rewrite (rp_tri _ _ _ _ _ HR) in Hfo. discriminate. }
+  destruct (add_free_spec rc _ _ _ _ _ Hok0 H0 (seq_ge1 _) Efree) as [Hok1 [Hfree _]].
   pose proof (free_result_val _ _ _ a bv Hfree Hv0) as Hv1.
   (* true / false elimination *)
-  destruct (pass2_shrink _ _ _ (co_inv _ (proj1 Hok1)) E2) as [HI2 Hs2].
-  pose proof (tables_ok_shrink s1 g2 Hok1 HI2 Hs2) as Hok2.
+  destruct (pass2_shrink _ _ _ (co_inv _ _ _ (proj1 Hok1)) E2) as [HI2 Hs2].
+  pose proof (tables_ok_shrink _ _ s1 g2 Hok1 HI2 (fun E => False_ind _ (Bool.diff_false_true E)) Hs2) as Hok2.
   assert (Hr2 : sg_alive g2 root1 = true).
   { unfold pass3 in E3. cbn [with_g ls_g] in E3.
     destruct (get_literal_diffs g2 root1) as [m|] eqn:Em; [|discriminate].
     exact (get_literal_diffs_root g2 root1 m HI2 Em). }
   pose proof (sh_val _ _ Hs2 a root1 bv Hr2 Hv1) as Hv2.
   (* smoothing *)
-  destruct (pass3_grow rc ord Hord _ _ _ Hok2 E3) as [_ Hg3]. cbn [with_g ls_g] in Hg3.
+  destruct (pass3_grow rc ord Hord (P := nonzero) (st := false) (fun l H => H) nonzero_opp _ _ _ Hok2 E3) as [_ Hg3]. cbn [with_g ls_g] in Hg3.
   pose proof (gr_val _ _ Hg3 a root1 bv Hv2) as Hv3.
   (* rebuild *)
-  exact (rebuild_sem (ls_g s3) a root1 order C0 bv Ed Ef Hv3).
+  exact (rebuild_sem (ls_g s3) a root1 order C bv Ed Ef Hv3).
 Qed.
 End Main.
 
